@@ -1263,3 +1263,144 @@ Qed.
 Lemma complete_unfold : forall ds out,
   complete ds out = (forall u, In (u, true) ds -> exists t, In (u, Some t) out).
 Proof. reflexivity. Qed.
+
+(* ====================================================================== *)
+(* F4(iii) as a selector: without a track lacking candidates no ValueError
+   can occur (the matrix is all finite, so an assignment of full size exists) *)
+
+Definition nan_step (cfg : config) (x : state * frame * outcome) : Prop :=
+  answer_used cfg (t_state x) (t_frame x) = true ->
+  nan_consistent cfg (t_state x) (length (f_dets (t_frame x))) (f_matrix (t_frame x)) = true.
+
+Definition diag (k : nat) : pairs := map (fun i => (i, i)) (seq 0 k).
+
+Lemma diag_fst : forall k, map fst (diag k) = seq 0 k.
+Proof. intros. unfold diag. rewrite map_map. simpl. apply map_id. Qed.
+
+Lemma diag_snd : forall k, map snd (diag k) = seq 0 k.
+Proof. intros. unfold diag. rewrite map_map. simpl. apply map_id. Qed.
+
+Lemma diag_matching : forall n m, matching n m (diag (Nat.min n m)).
+Proof.
+  intros n m. unfold matching. rewrite diag_fst, diag_snd.
+  repeat split; try apply seq_NoDup; intros x Hx; apply in_seq in Hx; lia.
+Qed.
+
+Lemma no_stale_all_finite : forall cfg st n M,
+  cur st = seq 0 (length (cur st)) ->
+  sel_F4iii cfg st = false -> nan_consistent cfg st n M = true ->
+  forall r c, r < n -> c < length (cur st) -> cell M r c <> None.
+Proof.
+  intros cfg st n M Hc S N r c Hr Hcm.
+  unfold sel_F4iii in S. apply negb_false_iff in S. rewrite forallb_forall in S.
+  unfold nan_consistent in N. rewrite forallb_forall in N.
+  assert (Ic : In c (cur st)) by (rewrite Hc; apply in_seq; lia).
+  assert (K := N r (proj2 (in_seq _ _ _) (conj (Nat.le_0_l r) Hr))).
+  rewrite forallb_forall in K. specialize (K c Ic). rewrite (S c Ic) in K. simpl in K.
+  destruct (cell M r c); [discriminate | discriminate K].
+Qed.
+
+Lemma no_stale_no_defect : forall cfg st f o,
+  Inv cfg st -> contract_step cfg (st, f, o) -> nan_step cfg (st, f, o) ->
+  (fix_iii cfg = true \/ sel_F4iii cfg st = false) ->
+  (is_init cfg st = false ->
+   exists p, (scores_raise cfg st (length (f_dets f)) = false -> f_answer f = APairs p) /\
+     (fix_i cfg = true \/ sel_F4i p = false) /\
+     (fix_ii cfg = true \/ sel_F4ii cfg (length (f_dets f)) p = false)) ->
+  (fix_iii cfg = false -> finite_step cfg (st, f, o)) /\ no_defect_fires cfg (st, f, o).
+Proof.
+  intros cfg st f o [Hc _] C N S3 S12.
+  unfold contract_step, nan_step, finite_step, no_defect_fires, quirk_free, t_state, t_frame in *.
+  simpl fst in *. simpl snd in *.
+  split.
+  - intros F3 _ _ F3'. congruence.
+  - intros Ei. destruct (S12 Ei) as (p & Ea & S1 & S2).
+    assert (Er : scores_raise cfg st (length (f_dets f)) = false).
+    { unfold scores_raise. destruct S3 as [F3|S3].
+      - rewrite F3. destruct (red_max cfg); reflexivity.
+      - unfold sel_F4iii in S3. apply negb_false_iff in S3. rewrite S3.
+        rewrite !andb_false_r. reflexivity. }
+    split; auto. exists p. split; auto.
+Qed.
+
+(* the Hungarian matcher cannot fail when no track lacks candidates *)
+Lemma no_stale_hungarian_answers : forall cfg st n M a,
+  cur st = seq 0 (length (cur st)) ->
+  sel_F4iii cfg st = false -> nan_consistent cfg st n M = true ->
+  hungarian_contract false M n (length (cur st)) a -> a <> AFail.
+Proof.
+  intros cfg st n M a Hc S N H ->. destruct H as [_ H].
+  apply (H (diag (Nat.min n (length (cur st))))).
+  - apply diag_matching.
+  - intros r c K. unfold diag in K. apply in_map_iff in K. destruct K as [i [E Hi]].
+    inversion E; subst. apply in_seq in Hi.
+    eapply no_stale_all_finite; eauto; lia.
+  - unfold diag. rewrite map_length, seq_length. reflexivity.
+Qed.
+
+Lemma no_stale_some_finite : forall cfg st n M,
+  cur st = seq 0 (length (cur st)) ->
+  sel_F4iii cfg st = false -> nan_consistent cfg st n M = true ->
+  some_finite M n (length (cur st)).
+Proof.
+  intros cfg st n M Hc S N Hn Hm. exists 0, 0. repeat split; auto.
+  eapply no_stale_all_finite; eauto.
+Qed.
+
+(* the three selectors, exactly *)
+Definition selectors_silent (cfg : config) (x : state * frame * outcome) : Prop :=
+  is_init cfg (t_state x) = false ->
+  (fix_iii cfg = true \/ sel_F4iii cfg (t_state x) = false) /\
+  forall p, f_answer (t_frame x) = APairs p ->
+    (fix_i cfg = true \/ sel_F4i p = false) /\
+    (fix_ii cfg = true \/ sel_F4ii cfg (length (f_dets (t_frame x))) p = false).
+
+Lemma Forall_and4 : forall A (P Q R S : A -> Prop) l,
+  Forall P l -> Forall Q l -> Forall R l -> Forall S l -> Forall (fun x => P x /\ Q x /\ R x /\ S x) l.
+Proof.
+  induction l; intros HP HQ HR HS; constructor;
+    inversion HP; inversion HQ; inversion HR; inversion HS; subst; auto.
+Qed.
+
+Theorem complete_no_raise_selectors : forall cfg h,
+  Forall (contract_step cfg) (trace cfg init h) ->
+  Forall (nan_step cfg) (trace cfg init h) ->
+  Forall (finite_step cfg) (trace cfg init h) ->
+  Forall (selectors_silent cfg) (trace cfg init h) ->
+  Forall ok_complete (trace cfg init h) /\ length (run cfg h) = length h.
+Proof.
+  intros cfg h H1 H2 H3 H4.
+  assert (F : Forall ok_complete (trace cfg init h)).
+  { apply (trace_induct cfg (Inv cfg)
+             (fun x => contract_step cfg x /\ nan_step cfg x /\ finite_step cfg x /\ selectors_silent cfg x));
+      [|apply Inv_init|apply Forall_and4; auto].
+    intros st f Hi (C & N & Fi & Sel).
+    pose proof (step_spec cfg st f Hi (contract_valid _ _ _ _ C)) as (I1 & _).
+    split; auto.
+    assert (Q : quirk_free cfg st f).
+    { intros Ei. destruct (Sel Ei) as [S3 S12].
+      unfold t_state, t_frame in *. simpl fst in *. simpl snd in *.
+      assert (Er : scores_raise cfg st (length (f_dets f)) = false).
+      { unfold scores_raise. destruct S3 as [F3|S3].
+        - rewrite F3. destruct (red_max cfg); reflexivity.
+        - unfold sel_F4iii in S3. apply negb_false_iff in S3. rewrite S3.
+          rewrite !andb_false_r. reflexivity. }
+      split; auto.
+      assert (U : answer_used cfg st f = true) by (unfold answer_used; rewrite Ei, Er; reflexivity).
+      specialize (C U). specialize (N U). unfold t_state, t_frame in C, N. simpl fst in C, N. simpl snd in C, N.
+      destruct (f_answer f) as [|p] eqn:Ea.
+      - exfalso. unfold matcher_contract in C. destruct (greedy cfg) eqn:G.
+        + destruct C as (p & E & _). discriminate.
+        + destruct S3 as [F3|S3].
+          * rewrite F3 in C. destruct C; discriminate.
+          * destruct (fix_iii cfg) eqn:F3; [destruct C; discriminate|].
+            destruct Hi as [Hc _].
+            eapply no_stale_hungarian_answers; eauto.
+      - exists p. split; auto. }
+    destruct (step_complete cfg st f Hi (contract_valid _ _ _ _ C)
+                (contract_nonempty _ _ _ _ C Fi) Q) as (out & Ho & Hc).
+    exists out. split; auto. }
+  split; auto.
+  unfold run. rewrite run_trace, map_length. apply trace_all_ok_length.
+  eapply Forall_impl; [|exact F]. intros x (out & Ho & _). eauto.
+Qed.
